@@ -354,3 +354,7 @@ mod test {
         assert!(sell_order.price >= 200);
     }
 }
+
+#[cfg(any(kani, verif_replay))]
+#[path = "/verif/harness/agents_common_proofs.rs"]
+pub(crate) mod verif_proofs;
